@@ -276,7 +276,7 @@ def main(argv):
 
 
 def _write_evidence(prop, ev):
-    sub = 'evidence' if os.path.realpath(REPO) == '/repo' else '.scratch-evidence'
+    sub = 'evidence' if (os.path.realpath(REPO) == '/repo' and not os.environ.get('VF_COV_DIR')) else '.scratch-evidence'
     path = os.path.join(VERIF_DIR, sub, f'{prop}.json')
     os.makedirs(os.path.dirname(path), exist_ok=True)
     try:
